@@ -311,6 +311,8 @@ class NormalizeCat(Command):
         for raw, normal in zip(raw_values, normal_values):
             result[arr.data == raw] = normal
 
+        result.mask = numpy.ma.getmaskarray(arr).copy()
+
         return result
 
 
